@@ -178,7 +178,12 @@ class Api(object):
     lean_str = staticmethod(lean_str)
 
 
-def plugins():
+ERRS = (P.Untranslatable, OSError, SyntaxError, KeyError, AttributeError, IndexError, ValueError, TypeError)
+FROZEN = os.path.join(HERE, "gen_frozen")
+
+
+def plugins(broken):
+    """every plug-in on its own: one that cannot read the current source does not take the others down"""
     import importlib.util
     d = os.path.join(HERE, "genparts")
     out = {}
@@ -189,25 +194,64 @@ def plugins():
         m = importlib.util.module_from_spec(spec)
         spec.loader.exec_module(m)
         # generate(api) -> {"<File>.lean": text, ...}   (files land in lean/Clikit/Gen/)
-        for fname, text in m.generate(Api).items():
+        try:
+            files = m.generate(Api)
+        except ERRS as e:
+            # the files this plug-in writes: by convention <Cxx>.lean for genparts/cxx.py
+            broken[name[:-3].upper() + ".lean"] = "%s: %s" % (type(e).__name__, e)
+            continue
+        for fname, text in files.items():
             if fname in ("Consts.lean", "Logic.lean") or fname in out:
                 raise P.Untranslatable("plug-in %s: file name %s is taken" % (name, fname))
             out[fname] = text
     return out
 
 
+def frozen_text(fname):
+    path = os.path.join(FROZEN, fname)
+    if not os.path.exists(path):
+        return None
+    with open(path, encoding="utf-8") as f:
+        return f.read()
+
+
 def main():
+    """exit 0: every part generated, or the parts that could not be read from the current source were filled in from
+    tools/gen_frozen/ (the definitions generated from the tree the checks were validated on) and are listed under
+    "broken_parts" - the caller decides what that means for the property it checks.  exit 3: a part is unreadable and no
+    frozen copy exists.  `--freeze`: after a complete generation copy the generated files to tools/gen_frozen/."""
+    broken = {}
+    texts = {}
     try:
         consts_text, logic_text, summary = gen()
-        extra = plugins()
-    except (P.Untranslatable, OSError, SyntaxError, KeyError, AttributeError, IndexError, ValueError) as e:
+        texts["Consts.lean"], texts["Logic.lean"] = consts_text, logic_text
+    except ERRS as e:
+        summary = {"constants": {}, "functions": []}
+        broken["Consts.lean"] = broken["Logic.lean"] = "%s: %s" % (type(e).__name__, e)
+    try:
+        texts.update(plugins(broken))
+    except ERRS as e:
         print("BROKEN-TIE %s: %s" % (type(e).__name__, e))
         return 3
-    ch1 = write_if_changed(os.path.join(OUT, "Consts.lean"), consts_text)
-    ch2 = write_if_changed(os.path.join(OUT, "Logic.lean"), logic_text)
-    ch3 = [write_if_changed(os.path.join(OUT, f), t) for f, t in extra.items()]
-    summary["plugin_files"] = sorted(extra)
-    summary["changed"] = bool(ch1 or ch2 or any(ch3))
+    for fname in sorted(broken):
+        t = frozen_text(fname)
+        if t is None:
+            print("BROKEN-TIE %s (no frozen copy of %s)" % (broken[fname], fname))
+            return 3
+        texts[fname] = t.replace("-- GENERATED by tools/gen_lean.py from the current source of /repo - do not edit.",
+                                 "-- FROZEN copy (tools/gen_frozen): the current source could not be translated, see the run's notes.", 1)
+    changed = [write_if_changed(os.path.join(OUT, f), t) for f, t in sorted(texts.items())]
+    summary["plugin_files"] = sorted(f for f in texts if f not in ("Consts.lean", "Logic.lean"))
+    summary["changed"] = any(changed)
+    summary["broken_parts"] = broken
+    if "--freeze" in sys.argv[1:]:
+        if broken:
+            print("cannot freeze: " + json.dumps(broken))
+            return 3
+        os.makedirs(FROZEN, exist_ok=True)
+        for f, t in texts.items():
+            write_if_changed(os.path.join(FROZEN, f), t)
+        summary["frozen"] = len(texts)
     print("GEN " + json.dumps(summary))
     return 0
 
